@@ -149,13 +149,13 @@ def find_witness(P, failure, repo, seed=1):
 
 
 def run_extra(P, tier, seed, repo):
-    """Thorough tier: bounded replay of the real crate."""
-    if tier != "thorough":
-        return {}
+    """Bounded replay of the real crate (never counted as proved): the quick case counts in the quick tier, the large ones in
+    the thorough tier.  It is what looks at the abort paths (fatal!/panic!/assert!) of raft.rs and raw_node.rs, which the
+    mode-S contracts assume away, and at code behind assumed contracts."""
     out = {}
     reps = []
     for mon in monitors_of(P):
-        r = run_monitor(P, repo, seed or 1, cases=mon["thorough"], mon=mon)
+        r = run_monitor(P, repo, seed or 1, cases=mon["thorough"] if tier == "thorough" else mon["quick"], mon=mon)
         reps.append({"monitor": mon["bin"] + " " + " ".join(mon.get("args", [])), "status": r.get("status"), "cases": r.get("cases"), "what": mon["what"],
                      "wall_s": r.get("wall_s"), "note": "bounded replay on the real crate; never counted as proved"})
         if r.get("status") == "violation" and "witness" not in out:
